@@ -13,3 +13,12 @@ open SteelVerif.C13
 #print axioms ellipsis_dotted_tail_fixed
 #print axioms match_exact_needs_nested_guard
 #print axioms match_exact_needs_clean
+#print axioms reader_rejects_double_hash
+#print axioms G_iff
+#print axioms introduced_binders_fresh
+#print axioms expansion_names
+#print axioms user_forms_not_captured
+#print axioms template_free_ids_resolve_globally
+#print axioms user_form_meaning_unchanged
+#print axioms hygiene_user_binders
+#print axioms hygiene_user_binders_src
